@@ -2,7 +2,7 @@
     (Gen/Fun2.v, by tools/pytrans2.py) are extensionally the model's rule functions (Model/Rules.v)
     for the glob model.  Recompiled against the regenerated source on every run. *)
 From InToto.Model Require Import Base Json PyLib Glob PyLibGlob Rule Rules.
-From InToto.Proofs Require Import PyLibFacts2.
+From InToto.Proofs Require Import PyLibFacts2 RulesProofs.
 From InToto.Gen Require Import Fun2.
 
 Lemma py_set_vstrs : forall l, py_set (vstrs l) = Ok (vsset (dedup l)).
@@ -67,3 +67,106 @@ Print Assumptions tie_delete_rule.
 Print Assumptions tie_allow_rule.
 Print Assumptions tie_disallow_rule.
 Print Assumptions tie_require_rule.
+
+(** * MODIFY: matched names that are in both maps with different hash records *)
+
+Lemma dedup_In' : forall x l, In x (dedup l) <-> In x l.
+Proof.
+  induction l as [|y l IH]; cbn [dedup]; [tauto|]. destruct (mem_str y l) eqn:E.
+  - rewrite IH. cbn [In]. split; [intro H; right; exact H | intros [Hy|H]; [subst y; apply mem_str_In; exact E | exact H]].
+  - cbn [In]. rewrite IH. tauto.
+Qed.
+
+Lemma dedup_NoDup : forall l, NoDup (dedup l).
+Proof.
+  induction l as [|y l IH]; cbn [dedup]; [constructor|]. destruct (mem_str y l) eqn:E; [exact IH|].
+  constructor; [|exact IH]. rewrite dedup_In'. apply mem_str_false. exact E.
+Qed.
+
+Lemma filter_NoDup : forall (f : str -> bool) l, NoDup l -> NoDup (filter f l).
+Proof.
+  induction l as [|x l IH]; intro H; [constructor|]. inversion H as [|? ? Hn Hl]; subst. cbn [filter].
+  destruct (f x); [constructor; [intro Hin; apply filter_In in Hin; tauto | exact (IH Hl)] | exact (IH Hl)].
+Qed.
+
+Lemma py_index_inj_amap' : forall (m : amap) k,
+  py_index (inj_amap m) (VStr k) = match lookup k m with Some v => Ok (inj v) | None => Err EKeyError end.
+Proof. intros m k. unfold py_index, inj_amap. rewrite pv_assoc_inj. destruct (lookup k m); reflexivity. Qed.
+
+Definition differs_mp (M P : amap) (n : str) : bool :=
+  match lookup n M, lookup n P with Some hm, Some hp => negb (py_eqb hm hp) | _, _ => false end.
+
+Lemma modify_fold : forall (M P : amap) L acc,
+  amap_hashrecs M = true -> amap_hashrecs P = true ->
+  (forall n, In n L -> In n (keys M) /\ In n (keys P)) -> NoDup L -> (forall n, In n L -> ~ In n acc) ->
+  py_fold (map VStr L) (VSet (map VStr acc))
+    (fun v_path v_consumed =>
+       do t9 <- (do t7 <- py_index (inj_amap M) v_path; do t8 <- py_index (inj_amap P) v_path; py_ne t7 t8);
+       if truthy t9 then (do v_consumed0 <- py_set_add v_consumed v_path; Ok v_consumed0) else Ok v_consumed)
+  = Ok (VSet (map VStr (acc ++ filter (differs_mp M P) L))).
+Proof.
+  intros M P L. induction L as [|n L IH]; intros acc HM HP Hin Hnd Hfresh.
+  - cbn. rewrite app_nil_r. reflexivity.
+  - cbn [map py_fold].
+    destruct (Hin n (or_introl eq_refl)) as [HnM HnP].
+    apply keys_In_lookup in HnM. apply keys_In_lookup in HnP. destruct HnM as [x Hx]. destruct HnP as [y Hy].
+    assert (differs_mp M P n = negb (py_eqb x y)) as Hd by (unfold differs_mp; rewrite Hx, Hy; reflexivity).
+    rewrite (py_index_inj_amap' M n), (py_index_inj_amap' P n), Hx, Hy. cbn [bind py_ne].
+    rewrite (pv_eqb_hashrec x y (lookup_hashrec n M x HM Hx) (lookup_hashrec n P y HP Hy)).
+    inversion Hnd as [|? ? Hn HL]; subst.
+    cbn [filter]. rewrite Hd. destruct (py_eqb x y); cbn [negb vb truthy bind].
+    + apply IH; try assumption.
+      * intros m Hm. apply Hin. right. exact Hm.
+      * intros m Hm. apply Hfresh. right. exact Hm.
+    + unfold py_set_add. rewrite pv_mem_vstr.
+      destruct (mem_str n acc) eqn:Em; [apply mem_str_In in Em; exfalso; exact (Hfresh n (or_introl eq_refl) Em)|].
+      cbn [bind]. replace (map VStr acc ++ [VStr n]) with (map VStr (acc ++ [n])) by (rewrite map_app; reflexivity).
+      rewrite IH; try assumption.
+      * rewrite <- app_assoc. reflexivity.
+      * intros m Hm. apply Hin. right. exact Hm.
+      * intros m Hm Hacc. apply in_app_or in Hacc. destruct Hacc as [Ha|[->|[]]].
+        -- exact (Hfresh m (or_intror Hm) Ha).
+        -- exact (Hn Hm).
+Qed.
+
+Lemma filter_chain : forall (M P : amap) X,
+  filter (differs_mp M P)
+         (filter (fun x => mem_str x (dedup (keys P))) (filter (fun x => mem_str x (dedup (keys M))) X))
+  = filter (differs_mp M P) X.
+Proof.
+  intros M P X. induction X as [|n X IH]; [reflexivity|]. cbn [filter].
+  destruct (mem_str n (dedup (keys M))) eqn:EM.
+  - cbn [filter]. destruct (mem_str n (dedup (keys P))) eqn:EP.
+    + cbn [filter]. rewrite IH. reflexivity.
+    + rewrite IH. assert (differs_mp M P n = false) as ->; [|reflexivity].
+      unfold differs_mp. destruct (lookup n M); [|reflexivity]. destruct (lookup n P) eqn:El; [|reflexivity].
+      exfalso. apply mem_str_false in EP. apply EP. apply dedup_In'. apply keys_In_lookup. eauto.
+  - rewrite IH. assert (differs_mp M P n = false) as ->; [|reflexivity].
+    unfold differs_mp. destruct (lookup n M) eqn:El; [|reflexivity].
+    exfalso. apply mem_str_false in EM. apply EM. apply dedup_In'. apply keys_In_lookup. eauto.
+Qed.
+
+Theorem tie_modify_rule : forall pat queue (M P : amap),
+  amap_hashrecs M = true -> amap_hashrecs P = true ->
+  f_verify_modify_rule (VStr pat) (vsset queue) (inj_amap M) (inj_amap P) =
+  res_map2 vsset (modify_rule glob_match pat queue M P).
+Proof.
+  intros pat queue M P HM HP. unfold f_verify_modify_rule, modify_rule.
+  rewrite fnmatch_filter_set. destruct (fnfilter glob_match queue pat) as [f|e]; [|reflexivity].
+  cbn [res_map2 bind]. rewrite py_set_vstrs. cbn [bind].
+  rewrite !keys_inj_amap. cbn [bind].
+  assert (forall l, py_set (vsset l) = Ok (vsset (dedup l))) as Hps
+    by (intro l; unfold py_set, vsset; rewrite pv_dedup_vstr; reflexivity).
+  rewrite !Hps. cbn [bind]. rewrite py_and_vsset. cbn [bind]. rewrite py_and_vsset. cbn [bind].
+  unfold py_for. unfold vsset at 1. cbn [py_iter bind].
+  change (VSet []) with (VSet (map VStr [])).
+  unfold set_inter.
+  rewrite (modify_fold M P _ [] HM HP).
+  - cbn [app bind]. rewrite filter_chain. reflexivity.
+  - intros n Hn. apply filter_In in Hn. destruct Hn as [Hn HPk]. apply filter_In in Hn. destruct Hn as [_ HMk].
+    apply mem_str_In in HPk. apply mem_str_In in HMk. rewrite dedup_In' in HPk, HMk. split; assumption.
+  - apply filter_NoDup. apply filter_NoDup. apply dedup_NoDup.
+  - intros n _ [].
+Qed.
+
+Print Assumptions tie_modify_rule.
